@@ -17,7 +17,7 @@ mod color_eyre { pub use super::Report; }
 //@end
 
 //@fn rln/src/utils.rs bytes_le_to_fr
-//@tags C10 C13
+//@tags C10 C13 C09 C14 C02 C03
 //@ret r
 //@contract
     requires input@.len() >= 32,   //# short-input-no-panic
@@ -26,7 +26,7 @@ mod color_eyre { pub use super::Report; }
 //@end
 
 //@fn rln/src/utils.rs fr_to_bytes_le
-//@tags C10
+//@tags C10 C09 C14 C03
 //@ret r
 //@contract
     ensures r@.len() == 32,   //# fr-encoder-width-32
@@ -112,7 +112,7 @@ pub open spec fn proof_values_canonical(s: Seq<u8>) -> bool {
 }
 
 //@fn rln/src/protocol.rs deserialize_proof_values
-//@tags C10 C13
+//@tags C10 C13 C02 C03
 //@ret r
 //@contract
     requires serialized@.len() >= 160,   //# short-input-no-panic
